@@ -86,6 +86,9 @@ def seed_list(tier):
         # a variable name of exactly 16 characters (runs into the next name in the fixed-width VAR-LIST)
         {'kind': 'ioapi', 'rec': dict(ioapi_u.recipe(nt=2, nl=1, nr=2, nc=2, nv=2, start=0),
                                       names=['ABCDEFGHIJKLMNOP', 'NO2'])},
+        # a file on disk whose VAR-LIST lost its trailing blanks (generic netCDF tools strip them): a set-up state
+        {'kind': 'ioapi', 'setup': True,
+         'rec': dict(ioapi_u.recipe(nt=2, nl=2, nr=2, nc=2, nv=3, start=0, kind='disk'), strip_varlist=True)},
         {'kind': 'griddesc', 'withcf': False, 'nsteps': 2},
         {'kind': 'griddesc', 'withcf': True, 'nsteps': 1},
         # dates beyond 19 Jan 2038 (32-bit seconds since 1970) with and without CF time variables
@@ -140,6 +143,10 @@ def menu(f):
         add('apply', n >= 1, dim=d, fn=['r', 'max'])
         add('apply', n >= 1, dim=d, fn=['r', 'mean'], alias=True)
         add('apply', n >= 2, dim=d, fn=['f', 'diff'])
+        # functions that keep the length but not the first element (the time flags are metadata, not data)
+        add('apply', n >= 2, dim=d, fn=['f', 'reverse'])
+        if d == 'TSTEP':
+            add('apply', n >= 2, dim=d, fn=['f', 'demean'])
     add('mask', True, greater=10010.5)
     # masking that also looks at coordinate variables: the time flags must come out untouched
     # (with CF coordinate variables present the caller asks for the time coordinate itself to be masked:
@@ -153,6 +160,12 @@ def menu(f):
         add('interpSigma', True, vglvls=[1., .875, .75, .25, 0.], interptype='conserve')
     add('binop', True, o='+')
     return ops
+
+
+# operations that hand on whatever their input had: a state that is incoherent because of a set-up step (a
+# variable added by hand without updatemeta, a VAR-LIST stripped by another tool) stays so through them;
+# everything else rebuilds the IOAPI metadata and must come out coherent whatever went in
+PRESERVING = ('copy', 'copy_nodata', 'stack', 'binop')
 
 
 def do_op(f, op):
@@ -256,6 +269,8 @@ class Prop(bfs.BfsProp):
 
     def check_state(self, state, seedrec, hist):
         cls = type(state).__name__
+        if seedrec.get('setup'):
+            return []      # an input another tool has touched: not judged itself, everything reachable from it is
         return [viol(c, ('seed', seedrec['kind'], cls), d, opname='seed', cls=cls, seedkind=seedrec['kind'])
                 for c, d in coherent(state)]
 
@@ -291,8 +306,8 @@ class Prop(bfs.BfsProp):
         except Exception as e:
             problems = [('cannot-audit', repr(e))]
         for c, d in problems:
-            if c in pre or op.get('setup'):
-                continue      # already incoherent before this step: reported where it arose
+            if op.get('setup') or (c in pre and op['op'] in PRESERVING):
+                continue      # a plain copy of a state that was incoherent already: reported where it arose
             vs.append(viol(c, sig, d, **scope))
         if not problems or (op.get('setup') and not any(c in ('not-wellformed', 'cannot-audit') for c, d in problems)):
             h = self.canon(new)
